@@ -39,6 +39,7 @@ type gen struct {
 	sb     strings.Builder
 	inFn   bool
 	nparam int
+	params []string
 	depth  int
 	loopN  int
 	nfuncs int
@@ -68,6 +69,9 @@ func (g *gen) intAtom() string {
 	case 1:
 		return g.pick("g0", "g1")
 	case 2:
+		if g.cfg.TieKeys && g.c.Intn(4) == 1 {
+			return g.pick("a", "b", "id", "Id", "url") // names that match a field only up to case
+		}
 		return g.pick(genFields...)
 	case 3:
 		return g.pick("70000", "65535", "100000", "65534", "123456789")
@@ -81,7 +85,7 @@ func (g *gen) intAtom() string {
 		return fmt.Sprintf("g2[%d]", g.c.Intn(4))
 	case 8:
 		if g.nparam > 0 {
-			return fmt.Sprintf("p%d", g.c.Intn(g.nparam))
+			return g.params[g.c.Intn(g.nparam)]
 		}
 		return "l0"
 	default:
@@ -193,7 +197,7 @@ func (g *gen) target() string {
 			return "l0"
 		case 2:
 			if g.nparam > 0 {
-				return fmt.Sprintf("p%d", g.c.Intn(g.nparam))
+				return g.params[g.c.Intn(g.nparam)]
 			}
 		}
 	}
@@ -287,6 +291,9 @@ func (g *gen) stmt() {
 	case 7:
 		g.loopN++
 		v := fmt.Sprintf("v%d", g.loopN%2)
+		if g.c.Intn(6) == 1 {
+			v = "g1" // a loop variable that shadows a global
+		}
 		if g.c.Bool() {
 			g.w("foreach i%d, %s in %s ", g.loopN%2, v, g.iterable())
 		} else {
@@ -407,6 +414,11 @@ func GenScript(c *verifsim.Chooser, cfg GenCfg) *Script {
 		for i := range ps {
 			ps[i] = fmt.Sprintf("p%d", i)
 		}
+		if len(ps) > 0 && c.Intn(3) == 1 {
+			// a parameter that shadows a global of the same name
+			ps[0] = g.pick("g0", "g1")
+		}
+		g.params = ps
 		g.w("function f%d(%s) {\nlocal l0;\nlocal l1;\nl0 = %d;\n", f, strings.Join(ps, ", "), c.Intn(3))
 		g.inFn, g.nparam, g.depth = true, g.arity[f], 1
 		m := 1 + c.Intn(4)
